@@ -13,8 +13,12 @@ LEVEL = "exploration"
 RULE = ("Hypothesis draws a tensor of TT-rank rho (gauss cores, uniform or ragged ranks 1..3, d 2..5), an expected rank m in rho..rho+2, mode "
         "sizes in m..m+3, a cap r in rho..rho+2 and an integer seed of the sample generator; the tensor is evaluated on sample_tt's set and "
         "svd_incomplete's result is compared with the dense tensor (overall magnitude 1e-100 .. 1e+100); in 4 of 7 cases the tensor has generic integer cores (-4..4) and its sample values "
-        "are handed over as int64 / int32 / float64 arrays (all exact). Non-trivial = rho >= 2; distinct by SHA-1 of the case.")
-TOLERANCES = "||dense(result) - T|| <= 1e-7 ||T|| when every unfolding has condition number <= 1e6 on its rank (else only well-formedness); ranks <= cap"
+        "are handed over as int64 / int32 / float64 arrays (all exact). Non-trivial = rho >= 2; distinct by SHA-1 of the case. Sub-check long: d in {22..64(100)}, "
+        "constant mode size 4..16 (up to 16^100 elements), cores whose mode slices are orthogonal matrices (all partial products of norm 1), rho 1..3, m in rho..rho+1, cap rho / rho+1 / default; sample and test values from chains of small products; "
+        "non-trivial there = rho >= 2 and >= 2^63 elements.")
+TOLERANCES = ("||dense(result) - T|| <= 1e-7 ||T|| when every unfolding has condition number <= 1e6 on its rank (else only well-formedness); ranks <= cap; long: relative error on 500 "
+              "random test entries <= 1e-3 (cores with orthogonal mode slices; observed 2e-14 median, 2e-10 worst of 400: the conditioning of a chain of 20..100 sampled interfaces has no a-priori bound, hence the wide margin; "
+              "a lost rank gives an error >= 0.1)")
 ASSUMPTIONS = ["continuous random cores ('almost all' tensors)", "every mode size >= m (the recovery needs distinct LHS prefixes/suffixes)", "cap r >= rho"]
 
 
@@ -105,4 +109,66 @@ def prop(case, ctx):
     ctx.check(err2 <= 1e-7 * nrm, "svd_incomplete (second call on the same sample arrays) did not recover the tensor", rel_err=err2 / nrm, cap=cap2)
 
 
-SUBCHECKS = [Sub("recover", prop, strategy=cases, quick=1000, thorough=8000)]
+# ------------------------------------------------------------------------------------------- long tensors (more than 2^63 elements)
+
+@st.composite
+def long_cases(draw, tier):
+    d = draw(st.sampled_from([22, 24, 33, 40, 64] if tier == "quick" else [22, 24, 33, 40, 64, 100]))
+    rho = draw(st.integers(1, 3))
+    m = rho + draw(st.integers(0, 1))
+    n0 = max(m, draw(st.sampled_from([4, 4, 5, 8, 16])))
+    return {"d": d, "n0": n0, "rho": rho, "m": m, "cap": draw(st.sampled_from(["rho", "rho+1", "default"])), "seed": draw(gen.seeds), "sseed": draw(st.integers(0, 10 ** 6)),
+            "n_as": draw(st.sampled_from(["list", "list", "int_array", "int32_array"]))}
+
+
+def chain_eval(Y, I):
+    v = Y[0][0, I[:, 0], :]
+    for k in range(1, len(Y)):
+        v = np.einsum('sa,asb->sb', v, Y[k][:, I[:, k], :])
+    return v[:, 0]
+
+
+def prop_long(case, ctx):
+    """No dense copy exists: the tensor is evaluated on sample_tt's set and on 500 random test entries by a chain of small products
+    written here."""
+    d, n0, rho, m = case["d"], case["n0"], case["rho"], case["m"]
+    n = [n0] * d
+    rng = np.random.default_rng(case["seed"])
+    r = [1] + [rho] * (d - 1) + [1]
+    # every mode slice of a core is an orthogonal matrix (a unit vector in the two end cores): all partial products have norm 1, so the
+    # sampled interfaces of a chain of any length stay well scaled (Gaussian cores give entries spread over e^(+-sqrt(d)) and, for d = 100,
+    # sampled fibres that differ by 1e13 - rank loss there is legitimate)
+    T = []
+    for k in range(d):
+        G = np.empty((r[k], n[k], r[k + 1]))
+        for i in range(n[k]):
+            if r[k] == r[k + 1]:
+                Q, _ = np.linalg.qr(rng.normal(size=(r[k], r[k])))
+                G[:, i, :] = Q * rng.choice([-1.0, 1.0], size=r[k])[None, :]
+            else:
+                v = rng.normal(size=(r[k], r[k + 1]))
+                G[:, i, :] = v / np.linalg.norm(v)
+        T.append(G)
+    ctx.label(f"d={d}", f"n={n0}", f"rho={rho}", f"m-rho={m - rho}", "cap:" + case["cap"], "elements>=2^63" if n0 ** d >= 2 ** 63 else "elements<2^63")
+    ctx.nontrivial(rho >= 2 and n0 ** d >= 2 ** 63)
+    narg = {"list": n, "int_array": np.array(n), "int32_array": np.array(n, dtype=np.int32)}[case["n_as"]]
+    I, idx, idx_many = ctx.lib(teneva.sample_tt, narg, m, case["sseed"])
+    ctx.check(isinstance(I, np.ndarray) and I.ndim == 2 and I.shape[1] == d and I.min() >= 0 and I.max() < n0, "sample_tt (long tensor): indices malformed / out of range")
+    y = chain_eval(T, I)
+    cap = {"rho": rho, "rho+1": rho + 1, "default": None}[case["cap"]]
+    args = (I, y, idx, idx_many, 1e-13 * float(np.abs(y).max()))
+    Y = ctx.lib(teneva.svd_incomplete, *args) if cap is None else ctx.lib(teneva.svd_incomplete, *args, cap)
+    why = oracle.wellformed(Y, n)
+    ctx.check(why is None, f"svd_incomplete (long tensor): result not well-formed / wrong shape: {why}")
+    if cap is not None:
+        ctx.check(max(oracle.ranks_of(Y)) <= cap, "svd_incomplete (long tensor): rank exceeds the cap", ranks=oracle.ranks_of(Y), cap=cap)
+    It = rng.integers(0, n0, size=(500, d))
+    a, b = chain_eval(T, It), chain_eval(Y, It)
+    err = float(np.linalg.norm(a - b) / np.linalg.norm(a))
+    ctx.check(err <= 1e-3, "svd_incomplete did not recover the low-rank tensor (long tensor, 500 random test entries)", rel_err=err, ranks=oracle.ranks_of(Y), rho=rho, d=d)
+    if err > 1e-8:
+        ctx.label("long_error>1e-8")
+
+
+SUBCHECKS = [Sub("recover", prop, strategy=cases, quick=1000, thorough=8000),
+             Sub("long", prop_long, strategy=long_cases, quick=12, thorough=150)]
